@@ -2,8 +2,8 @@ SPECIFICATION Spec
 CONSTANTS
   Ids = {"A", "B", "C"}
   InitUp = {"A", "B"}
-  Small = {}
-  Big = {"b1", "b2"}
+  Small = {"s1"}
+  Big = {"b1"}
   Fanout = 3
   TxLimit = 3
   SendList = "current"
